@@ -1,6 +1,12 @@
 package main
 
-import "golang.org/x/tools/go/ssa"
+import (
+	"fmt"
+	"go/token"
+	"strings"
+
+	"golang.org/x/tools/go/ssa"
+)
 
 func init() { register("C09", c09) }
 
@@ -19,6 +25,48 @@ func c09(c *Check) {
 	staleFieldReads(c, "C09/no-stale-validator-set", "x/xibc/clients/light-clients/bsc/types.update")
 	c.Rule("C09/window-and-pending-set-exported-whole", "the BSC client's metadata export (recent-signer window, pending validators) collects every entry: its collecting callback never returns the value that ends the traversal", 2)
 	collectorsNeverStop(c, "C09/window-and-pending-set-exported-whole", []*ssa.Function{c.F("x/xibc/clients/light-clients/bsc/types.ClientState.ExportMetadata")})
+	c.Rule("C09/turn-order-is-the-ascending-address-order", "wherever the validator set (a map) is turned into the list the in-turn rule indexes, every key is collected and the list is sorted on every path before it is used, by validatorsAscending whose Less is the byte-wise `<` of the two addresses", 2)
+	{
+		nloops := 0
+		for _, fn := range fnsInPackages(c, "/light-clients/bsc/types") {
+			for _, b := range fn.Blocks {
+				for _, ins := range b.Instrs {
+					rng, ok := ins.(*ssa.Range)
+					if !ok || c.P.IsClone(rng) || !strings.HasSuffix(c.P.Ex(fn).E(rng.X).String(), ".Validators") {
+						continue
+					}
+					appends := false
+					for lb := range loopBlocks(fn, rng) {
+						for _, li := range lb.Instrs {
+							if call, ok := li.(*ssa.Call); ok {
+								if bi, ok := call.Call.Value.(*ssa.Builtin); ok && bi.Name() == "append" {
+									appends = true
+								}
+							}
+						}
+					}
+					if !appends {
+						continue
+					}
+					nloops++
+					ok2, why := mapRangeOrderInsensitive(c, fn, rng)
+					sortedBy := false
+					for _, cs := range c.P.CallsIn(fn) {
+						if cs.Name == "sort.Sort" {
+							if mi, ok := cs.Ins.Common().Args[0].(*ssa.MakeInterface); ok && strings.HasSuffix(typeStr(mi.X.Type()), "bsc/types.validatorsAscending") {
+								sortedBy = true
+							}
+						}
+					}
+					c.Req(ok2 && sortedBy, "C09/turn-order-is-the-ascending-address-order", funcName(fn)+"/validator list", rng.Pos(), "collected completely and sorted with validatorsAscending",
+						"the list built from the validator map in "+funcName(fn)+" is not completely collected and then sorted with validatorsAscending on every path ("+why+"): the in-turn validator would depend on map order or on another order")
+				}
+			}
+		}
+		c.Req(nloops > 0, "C09/turn-order-is-the-ascending-address-order", "list built from the validator map", token.NoPos, fmt.Sprint(nloops, " site(s)"), "no loop collecting the validator map into a list found (anchor drifted)")
+		c.Spec("C09/turn-order-is-the-ascending-address-order", Macros{}, FnSpec{Fn: "x/xibc/clients/light-clients/bsc/types.validatorsAscending.Less",
+			Returns: []Ret{{Label: "byte-wise less", Index: 0, Want: []string{"($0[$1] <c $0[$2])"}}}})
+	}
 	c.Rule("C09/nothing-before-validity", "BSC CheckHeaderAndUpdateState changes state only after checkValidity accepted the header", 1)
 	nothingBeforeValidity(c, "C09/nothing-before-validity", "x/xibc/clients/light-clients/bsc/types.ClientState.CheckHeaderAndUpdateState")
 	neverBefore(c, "C09/pending-set-recorded-before-switch", c.F("x/xibc/clients/light-clients/bsc/types.update"), "bsc/types.GetPendingValidators", "bsc/types.SetPendingValidators",
